@@ -42,26 +42,27 @@ func (s Stack) Apply(opt *Option, profile string) (string, error) {
 	if len(opt.ArgList) == 0 {
 		return "", fmt.Errorf("no profile to stack")
 	}
-	t := opt.ArgList[0]
-	if t != "X" {
-		regCleanStakedRules = slices.Insert(regCleanStakedRules, 0,
+	names := opt.ArgList
+	regClean := slices.Clone(regCleanStakedRules)
+	if names[0] != "X" {
+		regClean = slices.Insert(regClean, 0,
 			util.ToRegexRepl([]string{
 				`(?m)^.*(|P|p)(|U|u)(|i)x,.*$`, ``, // Remove X transition rules
 			})...,
 		)
 	} else {
-		delete(opt.ArgMap, t)
+		names = names[1:]
 	}
 
 	res := ""
-	for name := range opt.ArgMap {
+	for _, name := range names { // In the order given
 		stackedProfile := prebuild.RootApparmord.Join(name).MustReadFileAsString()
 		m := regRules.FindStringSubmatch(stackedProfile)
 		if len(m) < 2 {
 			return "", fmt.Errorf("no profile found in %s", name)
 		}
 		stackedRules := m[1]
-		stackedRules = regCleanStakedRules.Replace(stackedRules)
+		stackedRules = regClean.Replace(stackedRules)
 		res += "  # Stacked profile: " + name + "\n" + stackedRules + "\n"
 	}
 
